@@ -539,7 +539,7 @@ func xeRunCodec(c *lab.Ctx, name, key, addr string, u *xeUpstream, nCases int) i
 			// a well-formed request that never arrives: decide refusal vs harness trouble by what the client sees
 			fr, rerr := cl.readFrame(300 * time.Millisecond)
 			if rerr == nil || rerr == io.EOF || strings.Contains(fmt.Sprint(rerr), "reset") {
-				what := fmt.Sprintf("%s: %s; the proxy answered with a %d-byte frame / err=%v instead of forwarding well-formed requests", name, failed, len(fr), rerr)
+				what := fmt.Sprintf("%s: %s; the proxy answered with a %d-byte frame (% x) / err=%v instead of forwarding well-formed requests", name, failed, len(fr), fr[:minInt(len(fr), 48)], rerr)
 				c.Violation("a well-formed request reaches the other side", "C01/xe2e/"+name+"/request-not-forwarded", what, witness(what))
 			} else {
 				c.Inconclusive("xe2e " + name + ": " + failed)
@@ -720,7 +720,7 @@ func xeRunCodec(c *lab.Ctx, name, key, addr string, u *xeUpstream, nCases int) i
 			}
 			pd := expect[id]
 			if pd == nil {
-				what := fmt.Sprintf("%s: response with request id %d which no pending request of this batch carries (%d bytes)", name, id, len(fr))
+				what := fmt.Sprintf("%s: response with request id %d which no pending request of this batch carries (%d bytes: % x)", name, id, len(fr), fr[:minInt(len(fr), 48)])
 				c.Violation("a response reaches the client unchanged", "C01/xe2e/"+name+"/response-id-unknown", what, witness(what))
 				violated = true
 				break
